@@ -3,10 +3,10 @@ package nodes
 import (
 	"bufio"
 	"context"
-	"net/url"
 	"fmt"
 	"net"
 	"net/http"
+	"net/url"
 	"strings"
 	"time"
 
@@ -108,6 +108,9 @@ type c10case struct {
 	Target string `json:"target_endpoint"`
 	Other  string `json:"other_endpoint_in_host,omitempty"`
 	Via    string `json:"via"`
+	// Marked: the client itself sends "x-piko-forward: true", the marker nodes put
+	// on requests they forward (it is client-controlled, so it must not buy anything)
+	Marked bool `json:"client_sends_forward_marker,omitempty"`
 }
 
 // proxyCase sends one request and returns (status, stamp).
@@ -117,6 +120,10 @@ func (rg *c10rig) proxyCase(c c10case, tok string) (int, string, error) {
 		entry = rg.nodes[1]
 	}
 	authH := [2]string{"Authorization", "Bearer " + tok}
+	markH := [2]string{"X-Verif-Nop", "1"}
+	if c.Marked {
+		markH = [2]string{"x-piko-forward", "true"}
+	}
 	switch c.Naming {
 	case "tcp":
 		// the upstreams speak HTTP: tunnel one request through the TCP route
@@ -151,6 +158,7 @@ func (rg *c10rig) proxyCase(c c10case, tok string) (int, string, error) {
 		hd.Set("Authorization", "Bearer "+tok)
 		hd.Set("x-piko-endpoint", c.Other)
 		hd.Set("Host", c.Other+".piko.test")
+		hd.Set(markH[0], markH[1])
 		d := websocket.Dialer{HandshakeTimeout: 10 * time.Second}
 		ws, resp, err := d.Dial("ws://"+entry.ProxyAddr()+"/_piko/v1/tcp/"+c.Target, hd)
 		if err != nil {
@@ -171,19 +179,19 @@ func (rg *c10rig) proxyCase(c c10case, tok string) (int, string, error) {
 		}
 		return 101, hresp.Header.Get("X-Stamp"), nil
 	case "host":
-		resp, err := Get(entry.ProxyAddr(), c.Target+".piko.test", "/c10", [][2]string{authH}, 10*time.Second)
+		resp, err := Get(entry.ProxyAddr(), c.Target+".piko.test", "/c10", [][2]string{authH, markH}, 10*time.Second)
 		if err != nil {
 			return 0, "", err
 		}
 		return resp.Status, resp.Header.Get("X-Stamp"), nil
 	case "header":
-		resp, err := Get(entry.ProxyAddr(), "127.0.0.1", "/c10", [][2]string{authH, {"x-piko-endpoint", c.Target}}, 10*time.Second)
+		resp, err := Get(entry.ProxyAddr(), "127.0.0.1", "/c10", [][2]string{authH, {"x-piko-endpoint", c.Target}, markH}, 10*time.Second)
 		if err != nil {
 			return 0, "", err
 		}
 		return resp.Status, resp.Header.Get("X-Stamp"), nil
 	default: // conflict: Host names c.Other, header names c.Target (the header wins)
-		resp, err := Get(entry.ProxyAddr(), c.Other+".piko.test", "/c10", [][2]string{authH, {"X-Piko-Endpoint", c.Target}}, 10*time.Second)
+		resp, err := Get(entry.ProxyAddr(), c.Other+".piko.test", "/c10", [][2]string{authH, {"X-Piko-Endpoint", c.Target}, markH}, 10*time.Second)
 		if err != nil {
 			return 0, "", err
 		}
@@ -210,53 +218,64 @@ func runC10Endpoints(sh *core.Shard, a props.Args) bool {
 						others = c10Endpoints
 					}
 					for _, other := range others {
-						if (naming == "conflict" || naming == "tcp-conflict") && other == target {
-							continue
-						}
-						c := c10case{cs.Name, naming, target, other, via}
-						// Host labels are case-preserving here; piko routes by the exact string
-						before := rg.seenTotal()
-						status, stamp, err := rg.proxyCase(c, tok)
-						sh.Eval()
-						sh.Count("proxy_cases", 1)
-						if err != nil {
-							sh.Inconcl("%+v: %v", c, err)
-							complete = false
-							continue
-						}
-						desc := fmt.Sprintf("token %s, target %q named by %s (Host label %q) via %s", cs.Name, target, naming, other, via)
-						served := stamp != ""
-						if served && stampEndpoint(stamp) != target {
-							sh.Violate("routed-elsewhere", fmt.Sprintf("%s: served by upstream %s: the endpoint that was routed to is not the one that was named", desc, stamp), c)
-							return false
-						}
-						if cs.permits(target) {
-							if !served || (status != 200 && status != 101) {
-								if status == 502 {
-									// routing hiccup (false suspicion under load): retry once after settling
-									if ok, _ := WaitSettled(rg.nodes, 30*time.Second); ok {
-										status, stamp, err = rg.proxyCase(c, tok)
-										served = stamp != ""
+						for _, marked := range []bool{false, true} {
+							if (naming == "conflict" || naming == "tcp-conflict") && other == target {
+								continue
+							}
+							if marked && (cs.permits(target) || naming == "tcp") {
+								// a marked request is only served from local upstreams, so only the
+								// refusals are decided here (the tunnel dialer cannot add headers)
+								continue
+							}
+							c := c10case{cs.Name, naming, target, other, via, marked}
+							// Host labels are case-preserving here; piko routes by the exact string
+							before := rg.seenTotal()
+							status, stamp, err := rg.proxyCase(c, tok)
+							sh.Eval()
+							sh.Count("proxy_cases", 1)
+							if err != nil {
+								sh.Inconcl("%+v: %v", c, err)
+								complete = false
+								continue
+							}
+							desc := fmt.Sprintf("token %s, target %q named by %s (Host label %q) via %s", cs.Name, target, naming, other, via)
+							if marked {
+								desc += ", the client itself sending x-piko-forward: true"
+								sh.Count("proxy_cases_with_client_forward_marker", 1)
+							}
+							served := stamp != ""
+							if served && stampEndpoint(stamp) != target {
+								sh.Violate("routed-elsewhere", fmt.Sprintf("%s: served by upstream %s: the endpoint that was routed to is not the one that was named", desc, stamp), c)
+								return false
+							}
+							if cs.permits(target) {
+								if !served || (status != 200 && status != 101) {
+									if status == 502 {
+										// routing hiccup (false suspicion under load): retry once after settling
+										if ok, _ := WaitSettled(rg.nodes, 30*time.Second); ok {
+											status, stamp, err = rg.proxyCase(c, tok)
+											served = stamp != ""
+										}
+									}
+									if err != nil || !served {
+										sh.Violate("permitted-endpoint-refused", fmt.Sprintf("%s: answered %d although the token permits the endpoint", desc, status), c)
+										return false
 									}
 								}
-								if err != nil || !served {
-									sh.Violate("permitted-endpoint-refused", fmt.Sprintf("%s: answered %d although the token permits the endpoint", desc, status), c)
+								sh.Count("permitted_served", 1)
+							} else {
+								if served || status != 401 {
+									sh.Violate("endpoint-not-permitted-but-served", fmt.Sprintf("%s: answered %d (stamp %q) although the token does not list the endpoint", desc, status, stamp), c)
 									return false
 								}
+								if after := rg.seenTotal(); after != before {
+									sh.Violate("endpoint-not-permitted-but-served", fmt.Sprintf("%s: answered 401 but an upstream saw the request", desc), c)
+									return false
+								}
+								sh.Count("not_permitted_refused", 1)
 							}
-							sh.Count("permitted_served", 1)
-						} else {
-							if served || status != 401 {
-								sh.Violate("endpoint-not-permitted-but-served", fmt.Sprintf("%s: answered %d (stamp %q) although the token does not list the endpoint", desc, status, stamp), c)
-								return false
-							}
-							if after := rg.seenTotal(); after != before {
-								sh.Violate("endpoint-not-permitted-but-served", fmt.Sprintf("%s: answered 401 but an upstream saw the request", desc), c)
-								return false
-							}
-							sh.Count("not_permitted_refused", 1)
+							sh.Nontrivial(core.Hash("proxy", cs.Name, naming, target, other, via, marked))
 						}
-						sh.Nontrivial(core.Hash("proxy", cs.Name, naming, target, other, via))
 					}
 				}
 			}
@@ -463,12 +482,12 @@ func runC10(sh *core.Shard, a props.Args) {
 func init() {
 	props.Register(&props.Prop{
 		ID: "C10", Level: "fault_enumeration", Race: true, ExhaustiveWhenAll: true,
-		Rule: "endpoint confinement: a 2-node real cluster with HMAC auth on proxy and upstream ports and one stamping upstream per endpoint of {a, a1, A, a-b, b}; 11 claim sets (no claim, empty list, [a], [a b], [a1], [A], [a-b], [b], [a.], [a*], ['']) x naming in {first Host label, x-piko-endpoint header, conflicting Host label + header, /_piko/v1/tcp path, the TCP path with a header and Host label naming another endpoint} x every target (x every other endpoint in the Host for conflicts) x local and forwarded entry; oracle: served (2xx/101 + stamp) iff the claim set is empty or lists exactly the named endpoint, the stamp's endpoint equals the named endpoint (the endpoint checked is the endpoint routed to), otherwise 401 and no upstream saw the request. Upstream port: the same claim sets x 8 endpoint ids: accepted (101) iff permitted and then exactly one more upstream appears in the registry under exactly that id; otherwise 401 and the registry is unchanged. Tenant matrix: tenant tables of 0-3 tenants with distinct keys, with and without a default key; every (token signed by default / t1 / t2 / t3 / unknown key) x (x-piko-tenant-id absent, t1, t2, t3, unknown, T1, default): accepted iff the header names a configured tenant whose key signed the token, or no tenants are configured, no header is sent and the default key signed it. All three matrices are enumerated completely. Distinct = one per case.",
+		Rule: "endpoint confinement: a 2-node real cluster with HMAC auth on proxy and upstream ports and one stamping upstream per endpoint of {a, a1, A, a-b, b}; 11 claim sets (no claim, empty list, [a], [a b], [a1], [A], [a-b], [b], [a.], [a*], ['']) x naming in {first Host label, x-piko-endpoint header, conflicting Host label + header, /_piko/v1/tcp path, the TCP path with a header and Host label naming another endpoint} x every target (x every other endpoint in the Host for conflicts) x local and forwarded entry, the refusals also with the client itself sending the x-piko-forward marker; oracle: served (2xx/101 + stamp) iff the claim set is empty or lists exactly the named endpoint, the stamp's endpoint equals the named endpoint (the endpoint checked is the endpoint routed to), otherwise 401 and no upstream saw the request. Upstream port: the same claim sets x 8 endpoint ids: accepted (101) iff permitted and then exactly one more upstream appears in the registry under exactly that id; otherwise 401 and the registry is unchanged. Tenant matrix: tenant tables of 0-3 tenants with distinct keys, with and without a default key; every (token signed by default / t1 / t2 / t3 / unknown key) x (x-piko-tenant-id absent, t1, t2, t3, unknown, T1, default): accepted iff the header names a configured tenant whose key signed the token, or no tenants are configured, no header is sent and the default key signed it. All three matrices are enumerated completely. Distinct = one per case.",
 		Assumptions: []string{
 			"HMAC keys (confinement logic is independent of the key family, which C09 covers)",
 			"a 502 for a permitted endpoint is retried once after routing re-settles (false suspicion under load is not a confinement matter)",
 		},
-		RequireCounters: []string{"permitted_served", "not_permitted_refused", "permitted_listens", "refused_listens", "tenant_accepted", "tenant_refused"},
+		RequireCounters: []string{"permitted_served", "not_permitted_refused", "proxy_cases_with_client_forward_marker", "permitted_listens", "refused_listens", "tenant_accepted", "tenant_refused"},
 		Shards:          func(string) int { return 2 },
 		Run:             runC10,
 	})
